@@ -1,3 +1,3 @@
 SPECIFICATION Spec
-INVARIANTS InvOrtho InvOrtho2D InvFrustum InvPerspective InvPerspectiveFov InvInfinite InvTweaked InvProjectCube InvProjectVolume InvRoundTrip InvDepthConvention InvPick InvDispatch InvDiscriminates
+INVARIANTS InvOrtho InvOrtho2D InvFrustum InvPerspective InvPerspectiveFov InvInfinite InvTweaked InvProjectCube InvProjectVolume InvRoundTrip InvHomForms InvDepthConvention InvPick InvDispatch InvDiscriminates
 CHECK_DEADLOCK FALSE
